@@ -453,7 +453,7 @@ def fixed_case(orders, quirk, pat=1, chn=1, rows=4, len_=None, rst=0, extra_mod=
     xxo = list(orders) + [0] * (256 - len(orders))
     L = ["begin raw id=X",
          "mod %d %d %d 0 0 6 125 %d %d 64 64 64 %d" % (pat, pat * chn, chn, len_, rst, quirk),
-         "name 00", "type 00", "xxo " + hexs(xxo), "xxc " + " ".join("128 64 0" for _ in range(64)), "tab 1 1"]
+         "name " + "00" * 64, "type " + "00" * 64, "xxo " + hexs(xxo), "xxc " + " ".join("128 64 0" for _ in range(64)), "tab 1 1"]
     for i in range(pat):
         L.append("p %d 1 %d %d%s" % (i, rows, chn, "".join(" %d" % (i * chn + j) for j in range(chn))))
     L.append("xxt %d %s" % (pat * chn, " ".join(str(rows) for _ in range(pat * chn))))
